@@ -2,9 +2,8 @@
   Nervus.Model.Agg — aggregation (nervusdb-query/src/executor/projection_sort.rs `execute_aggregate`).
 
   Every aggregate is a function of the list of values its argument expression takes on the rows of one
-  group, in row order.  Grouping: `HashMap<Vec<Value>, Vec<Row>>`; two keys share a group iff they are
-  `Eq` (the derived `PartialEq`: NaN ≠ NaN) and hash alike (`Hash` feeds float *bit patterns*) — the
-  iteration order of the map is arbitrary, the model lists groups in first-occurrence order and every
+  group, in row order.  Grouping: `HashMap<GroupKey, _>` over normalised keys (one NaN, −0.0 → +0.0) compared
+  bit-wise, so that `Eq` is total and agrees with `Hash` — the iteration order of the map is arbitrary, the model lists groups in first-occurrence order and every
   statement about the output is up to permutation.  Assumption: the `i128` accumulator of `sum` does not
   overflow (more than 2^64 rows).   Import-free (core only).
 -/
@@ -22,13 +21,13 @@ def countStar (vs : List Value) : Value := .int vs.length
 /-- `AggregateFunction::Count(Some(expr))` -/
 def count (vs : List Value) : Value := .int (nonNull vs).length
 
-/-- the `distinct_values` loop shared by all `…Distinct` aggregates: skip nulls, keep the first of
-    every class of the derived `==` (so every NaN is kept, −0.0 and +0.0 are merged). -/
+/-- the `distinct_values` loop shared by all `…Distinct` aggregates: skip nulls, keep the first of every
+    class of `distinct_eq` (= `keyEq`: the derived `==` with every NaN equal to every NaN; −0.0 ~ +0.0). -/
 def dedupInto (seen : List Value) : List Value → List Value
   | [] => seen
   | v :: vs =>
     if v.isNull then dedupInto seen vs
-    else if seen.any (fun e => deq e v) then dedupInto seen vs
+    else if seen.any (fun e => keyEq e v) then dedupInto seen vs
     else dedupInto (seen ++ [v]) vs
 
 def distinctVals (vs : List Value) : List Value := dedupInto [] vs
@@ -99,11 +98,13 @@ def collect (vs : List Value) : Value := .list (nonNull vs)
 def collectDistinct (vs : List Value) : Value := .list (distinctVals vs)
 def countDistinct (vs : List Value) : Value := .int (distinctVals vs).length
 
-/-- key equality of `HashMap<Vec<Value>, _>`: `Eq` (derived `==`) and the same `Hash` input
-    (floats are hashed by bit pattern) -/
-def groupKeyEq (a b : List Value) : Bool := deqList a b && sameList a b
+/-- key equality of `HashMap<GroupKey, _>` (after the `fix:` commit for C21): the keys are normalised
+    (`normalize_key`) and compared bit-wise (`normalized_eq`); the derived `Hash` of the normalised key agrees
+    with it, so the map behaves as a function of this equivalence. -/
+def groupKeyEq (a b : List Value) : Bool := sameList (norm.normList a) (norm.normList b)
 
-/-- `groups.entry(key).or_default().push(row)` -/
+/-- `groups.entry(GroupKey(normalised key)).or_insert_with(|| (key, vec![])).1.push(row)`: the group keeps the
+    key values of its first row -/
 def groupInsert {α} (k : List Value) (row : α) : List (List Value × List α) → List (List Value × List α)
   | [] => [(k, [row])]
   | (k', rs) :: rest =>
@@ -114,8 +115,16 @@ def groupRows {α} (noKeys : Bool) (rows : List (List Value × α)) : List (List
   let g := rows.foldl (fun g kr => groupInsert kr.1 kr.2 g) []
   if g.isEmpty && noKeys then [([], [])] else g
 
-/-! the pinned tree (before the `fix:` commit): `Value::Int(int_sum as i64)` wraps -/
+/-! the pinned tree (before the `fix:` commits): `Value::Int(int_sum as i64)` wraps; grouping on
+    `HashMap<Vec<Value>, _>` (same group iff derived `==` and same `Hash` input), DISTINCT by the derived `==` -/
 namespace Pinned
+def groupKeyEq (a b : List Value) : Bool := deqList a b && sameList a b
+def dedupInto (seen : List Value) : List Value → List Value
+  | [] => seen
+  | v :: vs =>
+    if v.isNull then dedupInto seen vs
+    else if seen.any (fun e => deq e v) then dedupInto seen vs
+    else dedupInto (seen ++ [v]) vs
 def sumFinish (acc : SumAcc) : Value :=
   if acc.sawFloat then .float acc.floatSum else .int (wrapI64 acc.intSum)
 def sum (F : FArith) (vs : List Value) : Value := sumFinish (vs.foldl (sumStep F) sumInit)
